@@ -281,7 +281,7 @@ impl UnixStr {
             return None;
         }
         let this_buf = &self.0;
-        let other_buf = &other.0[..other.0.len() - 2];
+        let other_buf = &other.0[..other.0.len() - 1];
         buf_find(this_buf, other_buf)
     }
 
